@@ -12,8 +12,11 @@ Alphabet ==
    C("calc", "m1", "A", "-"), C("calc", "m2", "A", "-"), C("perf", "m1", "A", "-"),
    C("gnext", "m1", "A", "h1"), C("gnext", "m1", "A", "h2"),
    \* two calculators over the taiko map under DIFFERENT settings, stepped in any interleaving on one thread
-   C("gnext", "m2", "C", "h3"), C("gnext", "m2", "D", "h4")}
-  \cup (IF Wide THEN {C("strains", "m1", "B", "-"), C("convert", "m1", "mania", "-"), C("calc", "m1", "B", "-"),
+   C("gnext", "m2", "C", "h3"), C("gnext", "m2", "D", "h4"),
+   \* two DIFFERENT osu! maps through the same conversion path (state keyed by an address or left from the previous map), and a
+   \* calculation whose intermediate collections could be iterated in hash order (mania Invert)
+   C("convert", "m1", "mania", "-"), C("convert", "m5", "mania", "-"), C("calc", "m4", "I", "-")}
+  \cup (IF Wide THEN {C("strains", "m1", "B", "-"), C("convert", "m5", "taiko", "-"), C("calc", "m1", "B", "-"),
                       C("attrs", "m2", "B", "-"), C("bpm", "m2", "-", "-"), C("gnext", "m3", "B", "h5"), C("gnext", "m4", "A", "h6")} ELSE {})
 Handles == {"h1", "h2", "h3", "h4", "h5", "h6"}
 Init == hist = <<>> /\ pos = [h \in Handles |-> 0]
